@@ -25,7 +25,7 @@ def _field_of(t):
     return t[1] if isinstance(t, tuple) and t and t[0] in ("field", "fieldv") else None
 
 
-def run(eng, ctx):
+def run(eng, ctx, reader_side=True):
     mod, cls = eng.socket_cls.split(".")
     rd = eng.repo.func(f"{eng.socket_cls}.read")
     rl = eng.repo.func(f"{eng.socket_cls}.readline")
@@ -202,6 +202,8 @@ def run(eng, ctx):
         else:
             ctx.bad("C11.D5", rl.qualname, "return", expected="returns the accumulated line", found=", ".join(show(e.term)[:40] for e in rets), **eng.loc(rl, rl.node))
 
+    if not reader_side:
+        return
     # ---------------- D6 reader wraps sockets
     ctx.rule("C11.D6", "the reader wraps socket objects in the wrapper and forwards encoding and bufsize")
     rinit = eng.repo.func(f"{eng.reader_cls}.__init__")
